@@ -523,6 +523,7 @@ func kindIndex(kinds []sub, x sub) int {
 
 func scaledScenarios() []hx.Scenario {
 	var out []hx.Scenario
+	var prio []int
 	names := map[string]bool{}
 	add := func(s scen, delay bool, min, max int, thoroughOnly bool) {
 		sc := s
@@ -539,6 +540,17 @@ func scaledScenarios() []hx.Scenario {
 			Opts: mc.Options{Delay: delay, MinBound: min, Bound: max, MaxSteps: 6000},
 			Mk:   func() *mc.Exec { return mkExec(sc) },
 		})
+		// shards are handed out in list order and a part that runs out of
+		// budget skips the tail: strict family first, then by size, the
+		// preemption-bounded extras last
+		pr := s.nvals() + 2*len(s.subs)
+		if !s.strict {
+			pr += 100
+		}
+		if !delay {
+			pr += 1000
+		}
+		prio = append(prio, pr)
 	}
 	shapes := [][]int{{1}, {2}, {3}, {1, 1}, {2, 1}, {2, 2}, {3, 1}, {3, 2}, {3, 3}}
 	for _, shape := range shapes {
@@ -551,13 +563,21 @@ func scaledScenarios() []hx.Scenario {
 			if nv == 1 {
 				closes = []int{-1, 0, 1}
 			}
+			if len(ss) == 3 {
+				// three subscribers dominate the cost: Close absent or after
+				// half of the calls, and not every shape
+				if len(shape) == 2 && shape[0] == 3 && shape[1] < 3 {
+					continue
+				}
+				closes = []int{-1, (nv + 1) / 2}
+			}
 			for _, c := range closes {
 				s := scen{bcs: values(shape), subs: ss, closeAt: c}
 				small := nv <= 2 && len(ss) == 1
 				// with a buffer of 2 a Broadcast parks on a stalled subscriber
 				// from the 4th value on: keep some of those in the quick tier
 				blocking := nv == 4 && len(ss) <= 2 && hasLeaver(ss) && !ss[len(ss)-1].late && (c == -1 || c == nv)
-				quick := (len(ss) == 1 && nv <= 3) || (len(ss) == 2 && nv <= 2) || blocking
+				quick := (len(ss) == 1 && nv <= 3) || (len(ss) == 2 && nv <= 2 && !ss[1].late) || blocking
 				min := 2
 				if small {
 					min = 3
@@ -604,7 +624,16 @@ func scaledScenarios() []hx.Scenario {
 			}
 		}
 	}
-	return out
+	idx := make([]int, len(out))
+	for i := range idx {
+		idx[i] = i
+	}
+	sort.SliceStable(idx, func(a, b int) bool { return prio[idx[a]] < prio[idx[b]] })
+	sorted := make([]hx.Scenario, len(out))
+	for i, j := range idx {
+		sorted[i] = out[j]
+	}
+	return sorted
 }
 
 func hasLeaver(ss []sub) bool {
